@@ -2,7 +2,7 @@
 //! scale and judges every clause of the statement by definition-level checks evaluated in f64.
 
 use crate::gen::{CholClass, Input};
-use crate::util::{broken, count, fmt_mat_short, hash_mat, pow2, top_rows};
+use crate::util::{self, broken, fmt_mat_short, hash_mat, pow2};
 use mc_core::oracle::{self as o, Mat};
 use mc_core::{self as mc, json, PanicInfo};
 use mc_sc::{dm, rows_of};
@@ -33,15 +33,29 @@ pub enum RhsMode {
     Full,
     /// p = 1..4 columns, one pattern each (x consistent / inconsistent)
     PerWidth,
+    /// p = 1 (pattern 1) and p = 3 (pattern 2) (x consistent / inconsistent)
+    Two,
 }
 
 pub struct Rhs {
-    pub tag: String,
+    pub p: usize,
+    pub pattern: usize,
+    pub exact_perp: bool,
     pub x0: Mat,
     pub b: Mat,
     pub consistent: bool,
     /// x0 is THE least-squares solution (full column rank and B - A*x0 exactly orthogonal to range(A))
     pub x0_is_solution: bool,
+}
+
+impl Rhs {
+    pub fn tag(&self) -> String {
+        if self.consistent {
+            format!("B=A*X0(p={},pattern={}) B={}", self.p, self.pattern, fmt_mat_short(&self.b))
+        } else {
+            format!("B=A*X0+E(p={},pattern={},E {} range(A)) B={}", self.p, self.pattern, if self.exact_perp { "exactly orthogonal to" } else { "outside" }, fmt_mat_short(&self.b))
+        }
+    }
 }
 
 const SIG3: [f64; 3] = [0.0, 1.0, -1.0];
@@ -52,8 +66,8 @@ fn x0_pattern(n: usize, p: usize, v: usize) -> Mat {
             (0..p)
                 .map(|j| match v {
                     0 => 1.0,
-                    1 => SIG3[(i + j) % 3],
-                    _ => SIG3[(2 * i + j + 1) % 3],
+                    1 => SIG3[(i + j + 1) % 3],
+                    _ => SIG3[(2 * i + j + 2) % 3],
                 })
                 .collect()
         })
@@ -66,13 +80,14 @@ pub fn rhs_list(inp: &Input, a: &Mat, e: i32, mode: RhsMode) -> Vec<Rhs> {
     let combos: Vec<(usize, usize)> = match mode {
         RhsMode::Full => (1..=4).flat_map(|p| (0..3).map(move |v| (p, v))).collect(),
         RhsMode::PerWidth => (1..=4).map(|p| (p, p % 3)).collect(),
+        RhsMode::Two => vec![(1, 1), (3, 2)],
     };
     let full_col = inp.rank == n;
     let amax = o::max_abs(a);
     for (p, v) in combos {
         let x0 = x0_pattern(n, p, v);
         let ax = o::matmul(a, &x0);
-        out.push(Rhs { tag: format!("B=A*X0(p={},pattern={})", p, v), x0: x0.clone(), b: ax.clone(), consistent: true, x0_is_solution: full_col });
+        out.push(Rhs { p, pattern: v, exact_perp: false, x0: x0.clone(), b: ax.clone(), consistent: true, x0_is_solution: full_col });
         if inp.rank < m {
             // a right-hand side outside range(A)
             let mut b = ax;
@@ -97,7 +112,7 @@ pub fn rhs_list(inp: &Input, a: &Mat, e: i32, mode: RhsMode) -> Vec<Rhs> {
                     false
                 }
             };
-            out.push(Rhs { tag: format!("B=A*X0+E(p={},pattern={},E {} range(A))", p, v, if exact_perp { "exactly orthogonal to" } else { "outside" }), x0, b, consistent: false, x0_is_solution: full_col && exact_perp });
+            out.push(Rhs { p, pattern: v, exact_perp, x0, b, consistent: false, x0_is_solution: full_col && exact_perp });
         }
     }
     out
@@ -112,17 +127,49 @@ pub struct Cx<'a> {
     pub eps: f64,
     pub k: f64,
     pub cls: &'static str,
-    pub head: String,
     pub amax: f64,
     pub afro: f64,
 }
 
 impl<'a> Cx<'a> {
-    fn viol(&self, op: &str, clause: &str, msg: String) {
-        mc::violation(format!("{}:{}:{}", op, clause, self.cls), format!("{} | {}", self.head, msg));
+    fn viol(&self, op: &str, clause: &str, msg: impl FnOnce() -> String) {
+        let grouped = (op.starts_with("qr.") || op.starts_with("svd.")) && in_abs_eps_regime(self.cls) && ACCURACY_CLAUSES.contains(&clause);
+        if grouped {
+            self.viol_cls(op, "inaccurate", self.cls, || format!("[{}] {}", clause, msg()))
+        } else {
+            self.viol_cls(op, clause, self.cls, msg)
+        }
     }
-    fn viol_cls(&self, op: &str, clause: &str, cls: &str, msg: String) {
-        mc::violation(format!("{}:{}:{}", op, clause, cls), format!("{} | {}", self.head, msg));
+    /// A panic of the library: the clause key carries the kind of panic; an index error is
+    /// determined by the shape, so its input class is the shape relation.
+    fn viol_panic(&self, op: &str, p: &PanicInfo, ctx: impl FnOnce() -> String) {
+        let kind = panic_kind(p);
+        let cls = if kind == "panic-index-out-of-bounds" {
+            match self.inp.m.cmp(&self.inp.n) {
+                std::cmp::Ordering::Less => "m<n",
+                std::cmp::Ordering::Equal => "m=n",
+                std::cmp::Ordering::Greater => "m>n",
+            }
+        } else {
+            self.cls
+        };
+        self.viol_cls(op, kind, cls, || format!("{}{}", ctx(), p.brief()))
+    }
+    /// Report a violation. The human-readable line is only built the first time this process sees
+    /// the site key (the explorer keeps one message per site and job; later ones are only counted)
+    /// and whenever the case is being sampled / replayed.
+    fn viol_cls(&self, op: &str, clause: &str, cls: &str, msg: impl FnOnce() -> String) {
+        let site = format!("{}:{}:{}", op, clause, cls);
+        let first = SEEN.with(|s| s.borrow_mut().insert(site.clone()));
+        if first || mc::sampling() {
+            mc::violation(site, format!("{} | {}", self.head(), msg()));
+        } else {
+            mc::violation(site, String::new());
+        }
+    }
+    fn head(&self) -> String {
+        let inp = self.inp;
+        format!("{} T=f{} scale=2^{} A({}x{})={} rank={} cond={:.3e}", inp.label, self.width, self.e, inp.m, inp.n, fmt_mat_short(&self.a), inp.rank, inp.cond)
     }
     fn guard_ok(&self) -> bool {
         self.k * self.eps * self.inp.cond <= COND_EPS_GUARD
@@ -134,17 +181,52 @@ fn input_class(inp: &Input, scale: f64, eps: f64) -> &'static str {
     if inp.rank == 0 {
         "zero-matrix"
     } else if inp.sv[inp.rank - 1] * scale <= 4.0 * eps {
-        // the smallest non-zero singular value is below 4*eps_T in ABSOLUTE size: the regime in
-        // which a comparison of a column norm with the absolute constant T::epsilon() can fire
-        // although the matrix is perfectly conditioned (the statement is scale-free down to 1e-12)
+        // the smallest non-zero singular value is below 4*eps_T in ABSOLUTE size: a comparison of a
+        // column norm with the absolute constant T::epsilon() fires although the matrix is
+        // perfectly conditioned (the statement is scale-free down to 1e-12)
         "sigma-min-below-4eps-absolute"
-    } else if inp.rank < inp.m.min(inp.n) {
-        "rank-deficient"
-    } else if inp.m < inp.n {
-        "wide"
+    } else if inp.rank < inp.n {
+        // non-trivial null space (rank-deficient, or wide): A has an exactly zero singular value
+        "rank<n"
+    } else if inp.sv[0] * scale <= 1048576.0 * eps {
+        // |A|_2 <= 2^20 * eps_T (absolute): quantities that are significant relative to |A| (down
+        // to 1/cond = 1e-6) can still be below the absolute constant T::epsilon()
+        "norm-below-2^20eps-absolute"
     } else {
         "full-column-rank"
     }
+}
+
+/// In the three input regimes in which comparisons with the ABSOLUTE constant T::epsilon() decide
+/// branches of QR / SVD, all accuracy clauses of an operation share one clause key.
+fn in_abs_eps_regime(cls: &str) -> bool {
+    matches!(cls, "sigma-min-below-4eps-absolute" | "norm-below-2^20eps-absolute" | "rank<n")
+}
+
+const ACCURACY_CLAUSES: &[&str] = &[
+    "A!=QR", "Q-not-orthonormal", "A!=USVt", "V-not-orthonormal", "U-not-orthonormal", "non-finite", "residual", "not-least-squares", "not-minimum-norm", "wrong-solution",
+];
+
+fn panic_kind(p: &PanicInfo) -> &'static str {
+    if p.msg.contains("no convergence") {
+        "panic-no-convergence"
+    } else if p.msg.contains("index out of bounds") || p.msg.contains("Invalid index") {
+        "panic-index-out-of-bounds"
+    } else if p.msg.contains("singular") || p.msg.contains("rank deficient") {
+        "panic-reported-singular"
+    } else if p.is_overflow_check() {
+        "panic-overflow-check"
+    } else {
+        "panic-other"
+    }
+}
+
+fn count(name: &'static str) {
+    mc::count(name)
+}
+
+thread_local! {
+    static SEEN: std::cell::RefCell<std::collections::HashSet<String>> = std::cell::RefCell::new(std::collections::HashSet::new());
 }
 
 type Lib<X> = Result<Result<X, Failed>, PanicInfo>;
@@ -190,21 +272,21 @@ fn lu_defect<T: RealNumber>(a: &Mat) -> Option<f64> {
     let at: DenseMatrix<T> = dm(a);
     let lu = mc::guard(|| at.lu()).ok()?.ok()?;
     let (l, u, p) = (rows_of(&lu.L()), rows_of(&lu.U()), rows_of(&lu.pivot()));
-    Some(o::max_abs(&o::sub(&o::matmul(&p, a), &o::matmul(&l, &u))))
+    Some(util::lu_defect_max(&p, a, &l, &u))
 }
 
 fn qr_defect<T: RealNumber>(a: &Mat) -> Option<f64> {
     let at: DenseMatrix<T> = dm(a);
     let qr = mc::guard(|| at.qr()).ok()?.ok()?;
     let (q, r) = (rows_of(&qr.Q()), rows_of(&qr.R()));
-    Some(o::max_abs(&o::sub(a, &o::matmul(&q, &r))))
+    Some(util::prod_defect_max(a, &q, &r))
 }
 
 fn chol_defect<T: RealNumber>(a: &Mat) -> Option<f64> {
     let at: DenseMatrix<T> = dm(a);
     let ch = mc::guard(|| at.cholesky()).ok()?.ok()?;
     let l = rows_of(&ch.L());
-    Some(o::max_abs(&o::sub(a, &o::matmul(&l, &o::transpose(&l)))))
+    Some(util::llt_defect_max(a, &l))
 }
 
 fn svd_defect<T: RealNumber>(a: &Mat) -> Option<f64> {
@@ -215,7 +297,7 @@ fn svd_defect<T: RealNumber>(a: &Mat) -> Option<f64> {
     if o::shape(&u).1 != s.len() || o::shape(&v).1 != s.len() {
         return None;
     }
-    Some(o::max_abs(&o::sub(a, &o::matmul(&o::matmul(&u, &o::diag(&s)), &o::transpose(&v)))))
+    Some(util::usvt_defect_max(a, &u, &s, &v))
 }
 
 impl<'a> Cx<'a> {
@@ -248,11 +330,11 @@ impl<'a> Cx<'a> {
         let p = rhs.x0[0].len();
         let full = match r {
             Err(pn) => {
-                self.viol(op, "panic", format!("{}: {}", rhs.tag, pn.brief()));
+                self.viol_panic(op, &pn, || format!("{}: ", rhs.tag()));
                 return;
             }
             Ok(Err(f)) => {
-                self.viol(op, "error", format!("{}: returned Err({})", rhs.tag, f));
+                self.viol(op, "error", || format!("{}: returned Err({})", rhs.tag(), f));
                 return;
             }
             Ok(Ok(x)) => rows_of(&x),
@@ -261,33 +343,33 @@ impl<'a> Cx<'a> {
         // The solvers overwrite B: for tall A the result keeps B's m rows and the solution is its
         // leading n rows (that is how linear_regression.rs reads it). Accept n or m rows.
         if xc != p || !(xr == n || (xr == m && m >= n)) {
-            self.viol(op, "shape", format!("{}: result is {}x{}, expected {}x{} (or {}x{} with the solution in the leading rows)", rhs.tag, xr, xc, n, p, m, p));
+            self.viol(op, "shape", || format!("{}: result is {}x{}, expected {}x{} (or {}x{} with the solution in the leading rows)", rhs.tag(), xr, xc, n, p, m, p));
             return;
         }
-        let x = top_rows(&full, n);
+        let mut x = full;
+        x.truncate(n);
         mc::outcome(hash_mat(7, &x));
         if !o::all_finite(&x) {
-            self.viol(op, "non-finite", format!("{}: solution contains NaN/inf: {}", rhs.tag, fmt_mat_short(&x)));
+            self.viol(op, "non-finite", || format!("{}: solution contains NaN/inf: {}", rhs.tag(), fmt_mat_short(&x)));
             return;
         }
-        let (xf, bf) = (o::fro(&x), o::fro(&rhs.b));
-        let res = o::sub(&o::matmul(&self.a, &x), &rhs.b);
+        let (xf, bf) = (util::fro(&x), util::fro(&rhs.b));
+        let res = util::residual(&self.a, &x, &rhs.b);
         let ceps = C_SOLVE * self.k * self.eps;
         if rhs.consistent {
-            let d = o::fro(&res);
+            let d = util::fro(&res);
             let tol = ceps * (self.afro * xf + bf);
-            if broken(&format!("{}:residual", op), d, tol) {
-                self.viol(op, "residual", format!("{}: |A*X-B|_F = {:e} > {:e} = {}*k*eps*(|A||X|+|B|); X={}", rhs.tag, d, tol, C_SOLVE, fmt_mat_short(&x)));
+            if broken(op, "residual", d, tol) {
+                self.viol(op, "residual", || format!("{}: |A*X-B|_F = {:e} > {:e} = {}*k*eps*(|A||X|+|B|); X={}", rhs.tag(), d, tol, C_SOLVE, fmt_mat_short(&x)));
                 return;
             }
         }
         if m > inp.rank {
             // least squares: A^T (A X - B) = 0
-            let g = o::matmul(&o::transpose(&self.a), &res);
-            let d = o::fro(&g);
+            let d = util::at_r_fro(&self.a, &res);
             let tol = ceps * self.afro * (self.afro * xf + bf);
-            if broken(&format!("{}:normal-equations", op), d, tol) {
-                self.viol(op, "not-least-squares", format!("{}: |A^T(A*X-B)|_F = {:e} > {:e} = {}*k*eps*|A|(|A||X|+|B|); X={}", rhs.tag, d, tol, C_SOLVE, fmt_mat_short(&x)));
+            if broken(op, "normal-equations", d, tol) {
+                self.viol(op, "not-least-squares", || format!("{}: |A^T(A*X-B)|_F = {:e} > {:e} = {}*k*eps*|A|(|A||X|+|B|); X={}", rhs.tag(), d, tol, C_SOLVE, fmt_mat_short(&x)));
                 return;
             }
             count("ls_checked");
@@ -300,8 +382,8 @@ impl<'a> Cx<'a> {
                     let xj = o::col(&x, j);
                     let d = o::dot(z, &xj).abs();
                     let tol = loosen * ceps * inp.cond * zn * o::norm2(&xj);
-                    if broken(&format!("{}:minimum-norm", op), d, tol) {
-                        self.viol(op, "not-minimum-norm", format!("{}: column {} of X has component {:e} along the null vector {:?} of A (allowed {:e}); X={}", rhs.tag, j, d / zn, z, tol / zn, fmt_mat_short(&x)));
+                    if broken(op, "minimum-norm", d, tol) {
+                        self.viol(op, "not-minimum-norm", || format!("{}: column {} of X has component {:e} along the null vector {:?} of A (allowed {:e}); X={}", rhs.tag(), j, d / zn, z, tol / zn, fmt_mat_short(&x)));
                         return;
                     }
                 }
@@ -309,14 +391,17 @@ impl<'a> Cx<'a> {
             count("min_norm_checked");
         }
         if rhs.x0_is_solution {
+            // perturbation theory of least squares: |dx| <~ eps * (cond*|x| + cond^2*|r|/|A|_2), r = B - A*X0
             let f = ceps * inp.cond;
             if f >= 0.25 {
                 count("x0_comparison_uninformative");
             } else {
-                let d = o::fro(&o::sub(&x, &rhs.x0));
-                let tol = f * o::fro(&rhs.x0);
-                if broken(&format!("{}:x-x0", op), d, tol) {
-                    self.viol(op, "wrong-solution", format!("{}: |X-X0|_F = {:e} > {:e} = {}*k*eps*cond*|X0| (cond={:.3e}); X={}", rhs.tag, d, tol, C_SOLVE, inp.cond, fmt_mat_short(&x)));
+                let d = util::fro(&o::sub(&x, &rhs.x0));
+                let r0 = if rhs.consistent { 0.0 } else { util::fro(&util::residual(&self.a, &rhs.x0, &rhs.b)) };
+                let a2 = inp.sv[0] * pow2(self.e);
+                let tol = f * (util::fro(&rhs.x0) + inp.cond * r0 / a2);
+                if broken(op, "x-x0", d, tol) {
+                    self.viol(op, "wrong-solution", || format!("{}: |X-X0|_F = {:e} > {:e} = {}*k*eps*(cond*|X0| + cond^2*|B-A*X0|/|A|_2) (cond={:.3e}); X={}", rhs.tag(), d, tol, C_SOLVE, inp.cond, fmt_mat_short(&x)));
                 }
             }
         }
@@ -331,62 +416,62 @@ fn check_lu<T: RealNumber>(cx: &Cx, at: &DenseMatrix<T>, rhs: &[Rhs]) {
     count("lu_cases");
     let r: Lib<_> = mc::guard(|| at.lu());
     let lu = match r {
-        Err(p) => return cx.viol("lu.factor", "panic", p.brief()),
-        Ok(Err(f)) => return cx.viol("lu.factor", "error", format!("lu() returned Err({}) for a non-singular matrix", f)),
+        Err(p) => return cx.viol_panic("lu.factor", &p, String::new),
+        Ok(Err(f)) => return cx.viol("lu.factor", "error", || format!("lu() returned Err({}) for a non-singular matrix", f)),
         Ok(Ok(lu)) => lu,
     };
     let parts: Lib<_> = mc::guard(|| Ok((rows_of(&lu.L()), rows_of(&lu.U()), rows_of(&lu.pivot()))));
     let (l, u, p) = match parts {
         Ok(Ok(x)) => x,
-        Err(pn) => return cx.viol("lu.factor", "panic", format!("L()/U()/pivot(): {}", pn.brief())),
+        Err(pn) => return cx.viol_panic("lu.factor", &pn, || "L()/U()/pivot(): ".into()),
         Ok(Err(_)) => unreachable!(),
     };
     mc::outcome(hash_mat(hash_mat(hash_mat(1, &l), &u), &p));
     let mut ok = true;
     if o::shape(&l) != (n, n) || o::shape(&u) != (n, n) || o::shape(&p) != (n, n) {
-        return cx.viol("lu.factor", "shape", format!("L {:?}, U {:?}, P {:?} for a {}x{} matrix", o::shape(&l), o::shape(&u), o::shape(&p), n, n));
+        return cx.viol("lu.factor", "shape", || format!("L {:?}, U {:?}, P {:?} for a {}x{} matrix", o::shape(&l), o::shape(&u), o::shape(&p), n, n));
     }
     if !all_finite(&[&l, &u]) {
-        return cx.viol("lu.factor", "non-finite", format!("L={} U={}", fmt_mat_short(&l), fmt_mat_short(&u)));
+        return cx.viol("lu.factor", "non-finite", || format!("L={} U={}", fmt_mat_short(&l), fmt_mat_short(&u)));
     }
     if !lower_exact(&l) || (0..n).any(|i| l[i][i] != 1.0) {
-        cx.viol("lu.factor", "L-not-unit-lower", format!("L={}", fmt_mat_short(&l)));
+        cx.viol("lu.factor", "L-not-unit-lower", || format!("L={}", fmt_mat_short(&l)));
         ok = false;
     }
     if !upper_exact(&u) {
-        cx.viol("lu.factor", "U-not-upper", format!("U={}", fmt_mat_short(&u)));
+        cx.viol("lu.factor", "U-not-upper", || format!("U={}", fmt_mat_short(&u)));
         ok = false;
     }
     if !is_permutation_matrix(&p) {
-        cx.viol("lu.factor", "P-not-permutation", format!("P={}", fmt_mat_short(&p)));
+        cx.viol("lu.factor", "P-not-permutation", || format!("P={}", fmt_mat_short(&p)));
         ok = false;
     } else if (0..n).any(|i| p[i][i] != 1.0) {
         count("lu_pivoted");
     }
     if ok {
-        let d = o::max_abs(&o::sub(&o::matmul(&p, a), &o::matmul(&l, &u)));
+        let d = util::lu_defect_max(&p, a, &l, &u);
         let tol = C_LU * cx.k * cx.eps * cx.amax;
-        if broken("lu.factor:PA=LU", d, tol) {
-            cx.viol("lu.factor", "PA!=LU", format!("|PA-LU|max = {:e} > {:e} = {}*n*eps*|A|max; L={} U={} P={}{}", d, tol, C_LU, fmt_mat_short(&l), fmt_mat_short(&u), fmt_mat_short(&p), cx.scale1_note(lu_defect::<T>, C_LU)));
+        if broken("lu.factor", "PA=LU", d, tol) {
+            cx.viol("lu.factor", "PA!=LU", || format!("|PA-LU|max = {:e} > {:e} = {}*n*eps*|A|max; L={} U={} P={}{}", d, tol, C_LU, fmt_mat_short(&l), fmt_mat_short(&u), fmt_mat_short(&p), cx.scale1_note(lu_defect::<T>, C_LU)));
         }
     }
     // inverse
     let r: Lib<_> = mc::guard(|| lu.inverse());
     match r {
-        Err(pn) => cx.viol("lu.inverse", "panic", pn.brief()),
-        Ok(Err(f)) => cx.viol("lu.inverse", "error", format!("inverse() returned Err({})", f)),
+        Err(pn) => cx.viol_panic("lu.inverse", &pn, String::new),
+        Ok(Err(f)) => cx.viol("lu.inverse", "error", || format!("inverse() returned Err({})", f)),
         Ok(Ok(inv)) => {
             let inv = rows_of(&inv);
             mc::outcome(hash_mat(2, &inv));
             if o::shape(&inv) != (n, n) {
-                cx.viol("lu.inverse", "shape", format!("inverse is {:?}", o::shape(&inv)));
+                cx.viol("lu.inverse", "shape", || format!("inverse is {:?}", o::shape(&inv)));
             } else if !o::all_finite(&inv) {
-                cx.viol("lu.inverse", "non-finite", format!("inverse={}", fmt_mat_short(&inv)));
+                cx.viol("lu.inverse", "non-finite", || format!("inverse={}", fmt_mat_short(&inv)));
             } else {
-                let d = o::fro(&o::sub(&o::matmul(a, &inv), &o::eye(n)));
-                let tol = C_SOLVE * cx.k * cx.eps * cx.afro * o::fro(&inv);
-                if broken("lu.inverse:A*inv=I", d, tol) {
-                    cx.viol("lu.inverse", "A*inv!=I", format!("|A*inv-I|_F = {:e} > {:e} = {}*n*eps*|A|_F|inv|_F; inv={}", d, tol, C_SOLVE, fmt_mat_short(&inv)));
+                let d = util::fro(&o::sub(&o::matmul(a, &inv), &o::eye(n)));
+                let tol = C_SOLVE * cx.k * cx.eps * cx.afro * util::fro(&inv);
+                if broken("lu.inverse", "A*inv=I", d, tol) {
+                    cx.viol("lu.inverse", "A*inv!=I", || format!("|A*inv-I|_F = {:e} > {:e} = {}*n*eps*|A|_F|inv|_F; inv={}", d, tol, C_SOLVE, fmt_mat_short(&inv)));
                 }
             }
         }
@@ -407,22 +492,22 @@ fn check_qr<T: RealNumber>(cx: &Cx, at: &DenseMatrix<T>, rhs: &[Rhs]) {
     }
     let r: Lib<_> = mc::guard(|| at.qr());
     let qr = match r {
-        Err(p) => return cx.viol("qr.factor", "panic", p.brief()),
-        Ok(Err(f)) => return cx.viol("qr.factor", "error", format!("qr() returned Err({})", f)),
+        Err(p) => return cx.viol_panic("qr.factor", &p, String::new),
+        Ok(Err(f)) => return cx.viol("qr.factor", "error", || format!("qr() returned Err({})", f)),
         Ok(Ok(x)) => x,
     };
     let parts: Lib<_> = mc::guard(|| Ok((rows_of(&qr.Q()), rows_of(&qr.R()))));
     let (q, r) = match parts {
         Ok(Ok(x)) => x,
-        Err(pn) => return cx.viol("qr.factor", "panic", format!("Q()/R(): {}", pn.brief())),
+        Err(pn) => return cx.viol_panic("qr.factor", &pn, || "Q()/R(): ".into()),
         Ok(Err(_)) => unreachable!(),
     };
     mc::outcome(hash_mat(hash_mat(3, &q), &r));
     if o::shape(&q) != (m, n) || o::shape(&r) != (n, n) {
-        return cx.viol("qr.factor", "shape", format!("Q {:?}, R {:?} for a {}x{} matrix", o::shape(&q), o::shape(&r), m, n));
+        return cx.viol("qr.factor", "shape", || format!("Q {:?}, R {:?} for a {}x{} matrix", o::shape(&q), o::shape(&r), m, n));
     }
     if !all_finite(&[&q, &r]) {
-        return cx.viol("qr.factor", "non-finite", format!("Q={} R={}{}", fmt_mat_short(&q), fmt_mat_short(&r), cx.scale1_note(qr_defect::<T>, C_QR)));
+        return cx.viol("qr.factor", "non-finite", || format!("Q={} R={}{}", fmt_mat_short(&q), fmt_mat_short(&r), cx.scale1_note(qr_defect::<T>, C_QR)));
     }
     if (0..n).any(|i| r[i][i] > 0.0) {
         count("qr_negative_diagonal_branch");
@@ -434,17 +519,17 @@ fn check_qr<T: RealNumber>(cx: &Cx, at: &DenseMatrix<T>, rhs: &[Rhs]) {
         count("qr_skipped_column");
     }
     if !upper_exact(&r) {
-        cx.viol("qr.factor", "R-not-upper", format!("R={}", fmt_mat_short(&r)));
+        cx.viol("qr.factor", "R-not-upper", || format!("R={}", fmt_mat_short(&r)));
     }
-    let d = o::orth_defect(&q);
+    let d = util::orth_defect_max(&q);
     let tol = C_QR * cx.k * cx.eps;
-    if broken("qr.factor:QtQ=I", d, tol) {
-        cx.viol("qr.factor", "Q-not-orthonormal", format!("|Q^T Q - I|max = {:e} > {:e} = {}*m*eps; Q={} R={}{}", d, tol, C_QR, fmt_mat_short(&q), fmt_mat_short(&r), cx.scale1_note(qr_defect::<T>, C_QR)));
+    if broken("qr.factor", "QtQ=I", d, tol) {
+        cx.viol("qr.factor", "Q-not-orthonormal", || format!("|Q^T Q - I|max = {:e} > {:e} = {}*m*eps; Q={} R={}{}", d, tol, C_QR, fmt_mat_short(&q), fmt_mat_short(&r), cx.scale1_note(qr_defect::<T>, C_QR)));
     }
-    let d = o::max_abs(&o::sub(a, &o::matmul(&q, &r)));
+    let d = util::prod_defect_max(a, &q, &r);
     let tol = C_QR * cx.k * cx.eps * cx.amax;
-    if broken("qr.factor:A=QR", d, tol) {
-        cx.viol("qr.factor", "A!=QR", format!("|A-QR|max = {:e} > {:e} = {}*m*eps*|A|max; Q={} R={}{}", d, tol, C_QR, fmt_mat_short(&q), fmt_mat_short(&r), cx.scale1_note(qr_defect::<T>, C_QR)));
+    if broken("qr.factor", "A=QR", d, tol) {
+        cx.viol("qr.factor", "A!=QR", || format!("|A-QR|max = {:e} > {:e} = {}*m*eps*|A|max; Q={} R={}{}", d, tol, C_QR, fmt_mat_short(&q), fmt_mat_short(&r), cx.scale1_note(qr_defect::<T>, C_QR)));
     }
     for r in rhs {
         let bt: DenseMatrix<T> = dm(&r.b);
@@ -476,9 +561,9 @@ fn check_chol<T: RealNumber>(cx: &Cx, at: &DenseMatrix<T>, rhs: &[Rhs]) {
                 }
                 Ok(Ok(ch)) => {
                     let l = mc::guard(|| rows_of(&ch.L())).unwrap_or_default();
-                    cx.viol_cls("chol.factor", "indefinite-accepted", cx.inp.chol_cls, format!("symmetric matrix with lambda_min = {:.4e} <= -|A|_2/10 (|A|_2 = {:.4e}) was factored instead of refused; L={}", cx.inp.lam_min * pow2(cx.e), cx.inp.lam_max_abs * pow2(cx.e), fmt_mat_short(&l)));
+                    cx.viol_cls("chol.factor", "indefinite-accepted", cx.inp.chol_cls, || format!("symmetric matrix with lambda_min = {:.4e} <= -|A|_2/10 (|A|_2 = {:.4e}) was factored instead of refused; L={}", cx.inp.lam_min * pow2(cx.e), cx.inp.lam_max_abs * pow2(cx.e), fmt_mat_short(&l)));
                 }
-                Err(pn) => cx.viol_cls("chol.factor", "indefinite-panic", cx.inp.chol_cls, format!("symmetric matrix with a clearly negative eigenvalue: panic instead of Err: {}", pn.brief())),
+                Err(pn) => cx.viol_cls("chol.factor", "indefinite-panic", cx.inp.chol_cls, || format!("symmetric matrix with a clearly negative eigenvalue: panic instead of Err: {}", pn.brief())),
             }
         }
         CholClass::Spd => {
@@ -488,28 +573,28 @@ fn check_chol<T: RealNumber>(cx: &Cx, at: &DenseMatrix<T>, rhs: &[Rhs]) {
             }
             count("chol_spd");
             let ch = match r {
-                Err(p) => return cx.viol("chol.factor", "panic", p.brief()),
-                Ok(Err(f)) => return cx.viol("chol.factor", "spd-refused", format!("cholesky() returned Err({}) for a positive definite matrix (cond {:.3e})", f, cx.inp.cond)),
+                Err(p) => return cx.viol_panic("chol.factor", &p, String::new),
+                Ok(Err(f)) => return cx.viol("chol.factor", "spd-refused", || format!("cholesky() returned Err({}) for a positive definite matrix (cond {:.3e})", f, cx.inp.cond)),
                 Ok(Ok(x)) => x,
             };
             let (l, u) = (rows_of(&ch.L()), rows_of(&ch.U()));
             mc::outcome(hash_mat(4, &l));
             if o::shape(&l) != (n, n) || o::shape(&u) != (n, n) {
-                return cx.viol("chol.factor", "shape", format!("L {:?}, U {:?}", o::shape(&l), o::shape(&u)));
+                return cx.viol("chol.factor", "shape", || format!("L {:?}, U {:?}", o::shape(&l), o::shape(&u)));
             }
             if !all_finite(&[&l, &u]) {
-                return cx.viol("chol.factor", "non-finite", format!("L={}", fmt_mat_short(&l)));
+                return cx.viol("chol.factor", "non-finite", || format!("L={}", fmt_mat_short(&l)));
             }
             if !lower_exact(&l) {
-                cx.viol("chol.factor", "L-not-lower", format!("L={}", fmt_mat_short(&l)));
+                cx.viol("chol.factor", "L-not-lower", || format!("L={}", fmt_mat_short(&l)));
             }
             if o::transpose(&l) != u {
-                cx.viol("chol.factor", "U!=Lt", format!("L={} U={}", fmt_mat_short(&l), fmt_mat_short(&u)));
+                cx.viol("chol.factor", "U!=Lt", || format!("L={} U={}", fmt_mat_short(&l), fmt_mat_short(&u)));
             }
-            let d = o::max_abs(&o::sub(a, &o::matmul(&l, &o::transpose(&l))));
+            let d = util::llt_defect_max(a, &l);
             let tol = C_CHOL * cx.k * cx.eps * cx.amax;
-            if broken("chol.factor:A=LLt", d, tol) {
-                cx.viol("chol.factor", "A!=LLt", format!("|A-LL^T|max = {:e} > {:e} = {}*n*eps*|A|max; L={}{}", d, tol, C_CHOL, fmt_mat_short(&l), cx.scale1_note(chol_defect::<T>, C_CHOL)));
+            if broken("chol.factor", "A=LLt", d, tol) {
+                cx.viol("chol.factor", "A!=LLt", || format!("|A-LL^T|max = {:e} > {:e} = {}*n*eps*|A|max; L={}{}", d, tol, C_CHOL, fmt_mat_short(&l), cx.scale1_note(chol_defect::<T>, C_CHOL)));
             }
             for r in rhs.iter().filter(|r| r.consistent) {
                 let bt: DenseMatrix<T> = dm(&r.b);
@@ -547,42 +632,42 @@ fn check_svd<T: RealNumber>(cx: &Cx, at: &DenseMatrix<T>, rhs: &[Rhs]) {
         count("svd_factor_cases");
         let r: Lib<_> = mc::guard(|| at.svd());
         match r {
-            Err(p) => cx.viol("svd.factor", "panic", p.brief()),
-            Ok(Err(f)) => cx.viol("svd.factor", "error", format!("svd() returned Err({})", f)),
+            Err(p) => cx.viol_panic("svd.factor", &p, String::new),
+            Ok(Err(f)) => cx.viol("svd.factor", "error", || format!("svd() returned Err({})", f)),
             Ok(Ok(svd)) => {
                 let (u, v, sm) = (rows_of(&svd.U), rows_of(&svd.V), rows_of(&svd.S()));
                 let s: Vec<f64> = svd.s.iter().map(|x| x.to_f64().unwrap()).collect();
                 mc::outcome(mc::hash::mix(hash_mat(hash_mat(5, &u), &v), mc::hash::h_f64s(&s)));
                 let kk = s.len();
                 if o::shape(&u) != (m, kk) || o::shape(&v) != (n, kk) || kk < m.min(n) {
-                    return cx.viol("svd.factor", "shape", format!("U {:?}, V {:?}, {} singular values for a {}x{} matrix", o::shape(&u), o::shape(&v), kk, m, n));
+                    return cx.viol("svd.factor", "shape", || format!("U {:?}, V {:?}, {} singular values for a {}x{} matrix", o::shape(&u), o::shape(&v), kk, m, n));
                 }
                 if !all_finite(&[&u, &v]) || s.iter().any(|x| !x.is_finite()) {
-                    return cx.viol("svd.factor", "non-finite", format!("s={:?} U={} V={}{}", s, fmt_mat_short(&u), fmt_mat_short(&v), cx.scale1_note(svd_defect::<T>, C_SVD)));
+                    return cx.viol("svd.factor", "non-finite", || format!("s={:?} U={} V={}{}", s, fmt_mat_short(&u), fmt_mat_short(&v), cx.scale1_note(svd_defect::<T>, C_SVD)));
                 }
                 if sm != o::diag(&s) {
-                    cx.viol("svd.factor", "S()-not-diag(s)", format!("s={:?} S()={}", s, fmt_mat_short(&sm)));
+                    cx.viol("svd.factor", "S()-not-diag(s)", || format!("s={:?} S()={}", s, fmt_mat_short(&sm)));
                 }
                 if s.iter().any(|x| *x < 0.0) {
-                    cx.viol("svd.factor", "negative-singular-value", format!("s={:?}", s));
+                    cx.viol("svd.factor", "negative-singular-value", || format!("s={:?}", s));
                 }
                 if s.windows(2).any(|w| w[0] < w[1]) {
-                    cx.viol("svd.factor", "s-not-sorted", format!("s={:?}", s));
+                    cx.viol("svd.factor", "s-not-sorted", || format!("s={:?}", s));
                 }
-                let d = o::max_abs(&o::sub(a, &o::matmul(&o::matmul(&u, &o::diag(&s)), &o::transpose(&v))));
+                let d = util::usvt_defect_max(a, &u, &s, &v);
                 let tol = C_SVD * cx.k * cx.eps * cx.amax;
-                if broken("svd.factor:A=USVt", d, tol) {
-                    cx.viol("svd.factor", "A!=USVt", format!("|A-U*diag(s)*V^T|max = {:e} > {:e} = {}*max(m,n)*eps*|A|max; s={:?} U={} V={}{}", d, tol, C_SVD, s, fmt_mat_short(&u), fmt_mat_short(&v), cx.scale1_note(svd_defect::<T>, C_SVD)));
+                if broken("svd.factor", "A=USVt", d, tol) {
+                    cx.viol("svd.factor", "A!=USVt", || format!("|A-U*diag(s)*V^T|max = {:e} > {:e} = {}*max(m,n)*eps*|A|max; s={:?} U={} V={}{}", d, tol, C_SVD, s, fmt_mat_short(&u), fmt_mat_short(&v), cx.scale1_note(svd_defect::<T>, C_SVD)));
                 }
-                let d = o::orth_defect(&v);
+                let d = util::orth_defect_max(&v);
                 let tol = C_SVD * cx.k * cx.eps;
-                if broken("svd.factor:VtV=I", d, tol) {
-                    cx.viol("svd.factor", "V-not-orthonormal", format!("|V^T V - I|max = {:e} > {:e}; s={:?} V={}{}", d, tol, s, fmt_mat_short(&v), cx.scale1_note(svd_defect::<T>, C_SVD)));
+                if broken("svd.factor", "VtV=I", d, tol) {
+                    cx.viol("svd.factor", "V-not-orthonormal", || format!("|V^T V - I|max = {:e} > {:e}; s={:?} V={}{}", d, tol, s, fmt_mat_short(&v), cx.scale1_note(svd_defect::<T>, C_SVD)));
                 }
                 if full_col {
-                    let d = o::orth_defect(&u);
-                    if broken("svd.factor:UtU=I", d, tol) {
-                        cx.viol("svd.factor", "U-not-orthonormal", format!("|U^T U - I|max = {:e} > {:e}; s={:?} U={}{}", d, tol, s, fmt_mat_short(&u), cx.scale1_note(svd_defect::<T>, C_SVD)));
+                    let d = util::orth_defect_max(&u);
+                    if broken("svd.factor", "UtU=I", d, tol) {
+                        cx.viol("svd.factor", "U-not-orthonormal", || format!("|U^T U - I|max = {:e} > {:e}; s={:?} U={}{}", d, tol, s, fmt_mat_short(&u), cx.scale1_note(svd_defect::<T>, C_SVD)));
                     }
                 }
                 // non-vacuity proxies measured from input and output only
@@ -639,8 +724,7 @@ fn run_t<T: RealNumber>(inp: &Input, e: i32, width: u8, mode: RhsMode, chol_only
         return;
     }
     let cls = input_class(inp, s, eps);
-    let head = format!("{} T=f{} scale=2^{} A({}x{})={} rank={} cond={:.3e}", inp.label, width, e, inp.m, inp.n, fmt_mat_short(&a), inp.rank, inp.cond);
-    let cx = Cx { inp, e, width, afro: o::fro(&a), amax, a, eps, k: inp.m.max(inp.n) as f64, cls, head };
+    let cx = Cx { inp, e, width, afro: util::fro(&a), amax, a, eps, k: inp.m.max(inp.n) as f64, cls };
     let rhs = rhs_list(inp, &cx.a, e, mode);
     let well = inp.cond <= COND_MAX;
     let before = mc::n_violations();
